@@ -237,6 +237,15 @@ def judge(code, ep, text, ana):
         if absent:
             return OK("absent-grs:object-unusable")
         return BAD("object-unusable", "returned object answers its accessors", str(idn), clause="object-unusable", kind=c if ok else "?", ep=ep)
+    # a long text over the Base58 alphabet plus some of its four look-alike exclusions (0 O I l) is not Base58 at all: no
+    # address, WIF or extended key may come out of it, whatever value a lenient digit lookup would assign
+    B58A = "123456789ABCDEFGHJKLMNPQRSTUVWXYZabcdefghijkmnopqrstuvwxyz"
+    only_b58_ep = ep in ("p2pkh", "p2sh", "wif") or ep.startswith(("bip32", "bip49", "bip84"))
+    if not b58 and not absent and len(text) >= 26 and any(ch in "0OIl" for ch in text) and all(ch in B58A + "0OIl" for ch in text) \
+            and not ana["bech"] and (only_b58_ep or (c == "Contract" and idn[1] in ("p2pkh", "p2sh"))
+                                     or c in ("BIP32Node", "BIP49Node", "BIP84Node")):
+        return BAD("accepts-malformed", "%s refuses text with characters outside the Base58 alphabet" % ep, "parsed as %s %s" % (c, show(idn)),
+                   clause="b58-non-alphabet-accepted", kind=c, ep=ep)
     # (3)/(4) checksummed kinds
     if b58 and not absent and ep in CAN:
         if c == "Contract":
@@ -438,6 +447,18 @@ class B58(_Base):
                 bad = text[:-1] + ("2" if text[-1] != "2" else "3")
                 yield from self.emit(code, "b58", dict(field=f, prefix=miss, payload="ramp:20:bad-checksum"), bad)
                 yield from self.emit(code, "b58", dict(field=f, prefix=miss, payload="ramp:20:char-0"), text[:5] + "0" + text[5:])
+                # "digit carry": ..Xz.. rewritten as ..(X+1)c.. with c outside the alphabet keeps the numeric value if an unknown
+                # character is read as digit -1; well-formed payloads of this field with such a position
+                ALPH = R.B58_ALPHABET if hasattr(R, "B58_ALPHABET") else "123456789ABCDEFGHJKLMNPQRSTUVWXYZabcdefghijkmnopqrstuvwxyz"
+                done = 0
+                for lab, rest in [("ramp:20", fill("ramp", 20)), ("ff:20", fill("ff", 20))] + list(shaped_payloads(self.seed)):
+                    t = R.b58check_encode(pre + rest)
+                    for i in range(1, len(t) - 1):
+                        if t[i + 1] == "z" and t[i] != "z" and done < 6:
+                            for c in ("0", "l"):
+                                t2 = t[:i] + ALPH[ALPH.index(t[i]) + 1] + c + t[i + 2:]
+                                yield from self.emit(code, "b58", dict(field=f, prefix=miss, payload="%s:digit-carry-%s" % (lab, c)), t2)
+                            done += 1
 
     def selfcheck(self):
         return R.selfcheck()
